@@ -66,6 +66,40 @@ def return_only(f, bi, depth=0):
     return all(return_only(f, s, depth + 1) for s in b['succs'])
 
 
+def cheap(f, bi, depth=0, seen=None):
+    """every path from block bi reaches a Return without a loop and without calls: no secret-dependent amount of work is
+    skipped or added by choosing this arm"""
+    seen = seen or set()
+    if bi in seen or depth > 8 or in_loop(f, bi):
+        return False
+    b = f['blocks'][bi]
+    for ins in b['instrs']:
+        if ins['op'] in ('Call', 'Go', 'Defer') and not (ins['a'] and ins['a'][0].get('n') in ('errors.New', 'fmt.Errorf')):
+            return False
+    if any(ins['op'] == 'Return' for ins in b['instrs']):
+        return True
+    if not b['succs']:
+        return False
+    return all(cheap(f, s_, depth + 1, seen | {bi}) for s_ in b['succs'])
+
+
+def returns_reject(f, bi, depth=0):
+    """the return-only arm hands back the API's reject verdict: a non-nil error, or (TestPrivateKey) a non-zero code"""
+    b = f['blocks'][bi]
+    rets = [ins for ins in b['instrs'] if ins['op'] == 'Return']
+    if rets:
+        for r in rets:
+            for a in r['a']:
+                if a['k'] == 'reg' and verdict_value(f, a):
+                    return True                      # an error value built on the spot / a package-level error
+                if a['k'] == 'const' and f['name'].endswith('/sm2.TestPrivateKey') and a.get('v') not in (0, '0', None):
+                    return True
+        return False
+    if depth > 4 or not b['succs']:
+        return False
+    return all(returns_reject(f, s_, depth + 1) for s_ in b['succs'])
+
+
 def main():
     ck = Check('C08')
     prog = dump_ssa('c08')
@@ -84,7 +118,13 @@ def main():
             f = prog.funcs[fn]
             if kind == 'symbranch':
                 succs = f['blocks'][bi]['succs']
-                verdict = (not in_loop(f, bi)) and any(return_only(f, s) for s in succs)
+                # a verdict branch: outside loops, one arm only returns verdict values, and either that arm is the API's
+                # reject outcome or the other arm does no further work (so that nothing secret-dependent is skipped)
+                verdict = False
+                if not in_loop(f, bi) and len(succs) == 2:
+                    for a_, o_ in ((succs[0], succs[1]), (succs[1], succs[0])):
+                        if return_only(f, a_) and (returns_reject(f, a_) or cheap(f, o_)):
+                            verdict = True
                 if verdict:
                     allowed.add((fn, bi, pos))
                     continue
